@@ -75,6 +75,13 @@ func c05Inputs() []c05Input {
 		out = append(out, c05Input{Name: "half-cent-boundary-one-day", Book: renderBook(book), Log: renderLog(lg1)})
 		out = append(out, c05Input{Name: "half-cent-boundary-three-days-huge-cancelling-terms", Book: renderBook(book), Log: renderLog(lg2)})
 	}
+	// non-finite quantities (the parser accepts NaN and Inf): comparisons with NaN are all false, so a sort or a
+	// maximum over such values follows its input order - which must not be a map's iteration order
+	{
+		book := "r1:\n  cal: 2\n  fat: NaN\nr2:\n  cal: Inf\n  fat: 1\nr3:\n  cal: -Inf\n  prot: 1\n"
+		lg := "2021/01/24:\n  water: NaN\n  r1: 1\n  juice: 2\n  tea: 2\n  r2: 1\n2021/01/25:\n  milk: inf\n  milk: -inf\n  r3: 1\n  r2: 1\n  bread: 1\n  juice: -1\n"
+		out = append(out, c05Input{Name: "non-finite-quantities", Book: book, Log: lg})
+	}
 	for _, sh := range shapes {
 		for _, extraDepth := range []int{0, 1} {
 			lg := absLog{{Date: "2021/01/24", Entries: []absIng{{sh.book[0].Name, 1}, {"u1", 2}}}, {Date: "2021/01/25", Entries: []absIng{{sh.book[1].Name, 2}, {"u2", 2}}}}
